@@ -246,7 +246,7 @@ pub fn run(seed: u64, ntraces: usize) {
                     script.extend([51u64, 3080, 3580, 52, 3081, 3581]);      // ethereum removed -> no transfer to it; then the hub removed -> none to a hub-routed chain
                 }
                 else if d == 14 {   // inbound deployment in two steps with the nominated minter calling the new manager directly in between
-                    script.extend([193u64, 45, 194, 23, 194, 45]);
+                    script.extend([193u64, 45, 194, 23, 194, 45, 196]);
                 }
                 else {              // d == 13: message-type words outside the known range, direct and hub-wrapped
                     for i in 0..6u64 { script.push(2000 + i); script.push(2100 + i); }
@@ -270,6 +270,15 @@ pub fn run(seed: u64, ntraces: usize) {
             let mut fvar: Option<u64> = None; let mut fbound: Option<u64> = None;
             let mut ftype: Option<u64> = None; let mut fshape: Option<(u64, u64)> = None;
             let mut fdeploy = false;
+            if a == 196 { // a second, separately approved deploy message for a token id whose manager already recorded its token: refused
+                g.msg += 1; let id = format!("msg-{}", g.msg).into_bytes();
+                if let Some(tk) = g.toks.iter().rev().find(|t| t.kind == "remote-native") { let tid = tk.id.clone();
+                    let payload = deploy_payload(&tid, b"Remote2", b"RM2", 6, g.users[2].as_bytes());
+                    let m = Msg { chain: b"ethereum".to_vec(), id: id.clone(), src: b"0xITSeth".to_vec(), contract: g.its.to_vec(), ph: keccak(&payload) }; g.gw_approve(&m);
+                    for egld in [0u64, ISSUE_COST] {
+                        g.its_tx("execute", &g.relayer.clone(), "execute", vec![b"ethereum".to_vec(), id.clone(), b"0xITSeth".to_vec(), payload.clone()], egld, &[],
+                            json!({"chain": hx(b"ethereum"), "id": hx(&id), "src": hx(b"0xITSeth"), "payload": hx(&payload), "ph": hx(&keccak(&payload)), "label": "in8/second-message"})); } }
+                continue; }
             if a == 195 { // a released transfer is approved again at the gateway (same message) and executed again: must be refused
                 g.msg += 1; let id = format!("msg-{}", g.msg).into_bytes();
                 if let Some(tk) = g.toks.first() { let tid = tk.id.clone();
